@@ -377,6 +377,26 @@ def b6_restore_on_every_exit(F, R):
         n += 1
         where = fn_site(F, b['id'])
         bad = None
+        # loop-free functions are decided over their enumerated paths (value-correlated conditions such as a saved
+        # Option<Command> are then exact); the graph query below covers the rest
+        paths = None
+        if not back_edges(sg):
+            try:
+                paths = PathEnum(sg).run()
+            except PathLimit:
+                paths = None
+        if paths is not None:
+            disabling = set(w for w in cw if any(o in sg.reach_fwd(list(sg.nodes[w].succ)) for o in cw if o != w))
+            for p in paths:
+                if p.panicked or (p.end and p.end[0] == 'loop'):
+                    continue
+                ws = [e[1] for e in p.effects if e[0] == 'call' and e[1] in cw]
+                if ws and ws[-1] in disabling:
+                    bad = 'after the command register is rewritten at %s a return is reachable without a later write restoring it' % site(sg, sg.nodes[ws[-1]])
+            R.check(bad is None, 'B6', '%s:command-restored-on-every-exit' % b['id'], where,
+                    'every returning path that rewrites the command register ends with a restoring write (%d writes, %d paths)' % (len(cw), len(paths)),
+                    'BAR probing side effect: %s (an error return leaves address decoding disabled)' % bad)
+            continue
         for w in cw:
             others = [x for x in cw if x != w]
             # is this a "disable" write, i.e. can another command write follow it? if none can, it is the restore itself
